@@ -413,12 +413,12 @@ theorem legal_microstep_any (h : Hooks) (hok : HooksOK h) (fl : Flavor) (m : Mac
   · exact legal_microstep_history h hok fl m ev c s hwf hi hs.1 hsrc tstr ht hne hh hres hn hat hk hP
       (fun R hg hR => hs.2 _ R hg hR) hOK
 
-/-- **C01 and C11 provide the run invariant**: for a well-formed machine without '.' in its id and
-    keys whose selection is sound (`SelSoundH`), "`cfg` is `Legal` and every remembered list is a legal
-    selection" is a `RunInv`, for either engine and arbitrary user code. -/
-theorem runInv_legal (fl : Flavor) (m : Machine) (u : UEnv) (hwf : WF m.root) (hi : InitOK m.root)
-    (hsel : SelSoundH m) (hd : MDot m) :
-    RunInv m u (hooksOf fl u m) fl (RunP m) (CandOK m) (fun s c => HistCand m s.cfg c) where
+/-- **C01 and C11 provide the run invariant**, for any hooks that only enqueue: for a well-formed machine
+    without '.' in its id and keys whose selection is sound (`SelSoundH`), "`cfg` is `Legal` and every
+    remembered list is a legal selection" is a `RunInv`, for arbitrary user code. -/
+theorem runInv_of_hooks (h : Hooks) (hok : HooksOK h) (htr : HooksTraceOK h) (fl : Flavor) (m : Machine) (u : UEnv)
+    (hwf : WF m.root) (hi : InitOK m.root) (hsel : SelSoundH m) (hd : MDot m) :
+    RunInv m u h fl (RunP m) (CandOK m) (fun s c => HistCand m s.cfg c) where
   inj := fun s hs => idInj_of_valid m hd s.cfg (fun p hp => by
     obtain ⟨n, hn, _⟩ := hs.1.states p hp
     rw [hn]; rfl)
@@ -428,16 +428,313 @@ theorem runInv_legal (fl : Flavor) (m : Machine) (u : UEnv) (hwf : WF m.root) (h
     obtain ⟨q, hq, hp⟩ := h1 c hc
     exact src_active hs.1 hq hp
   uniq := fun s ev c hs hc hsrc hint =>
-    runPlan_uniq _ (hooksOf_ok fl u m) fl m ev _ s hwf hs.1 (microSpec_of m c s hwf hi hs hc hsrc hint)
+    runPlan_uniq _ hok fl m ev _ s hwf hs.1 (microSpec_of m c s hwf hi hs hc hsrc hint)
   step := fun s ev c hs hc hsrc => by
-    refine ⟨legal_microstep_any _ (hooksOf_ok fl u m) fl m ev c s hwf hi hs hc hsrc, ?_⟩
-    rcases execute_hist_cases _ (hooksOf_traceOK fl u m) fl m ev (planTransition m s.cfg s.hist c) s with hh | ⟨hint, hh⟩
+    refine ⟨legal_microstep_any _ hok fl m ev c s hwf hi hs hc hsrc, ?_⟩
+    rcases execute_hist_cases _ htr fl m ev (planTransition m s.cfg s.hist c) s with hh | ⟨hint, hh⟩
     · rw [hh]; exact hs.2
     · rw [hh]
       exact histAll_recordHistory m hwf _ s hs.1 (microSpec_of m c s hwf hi hs hc hsrc hint).exits_active hs.2
   frame := fun s t hc hh hs => by
     show Legal m.root t.cfg ∧ HistAll m t.hist
     rw [← hc, ← hh]; exact hs
+
+/-- … in particular for the hooks either engine processes a sent event with -/
+theorem runInv_legal (fl : Flavor) (m : Machine) (u : UEnv) (hwf : WF m.root) (hi : InitOK m.root)
+    (hsel : SelSoundH m) (hd : MDot m) :
+    RunInv m u (hooksOf fl u m) fl (RunP m) (CandOK m) (fun s c => HistCand m s.cfg c) :=
+  runInv_of_hooks _ (hooksOf_ok fl u m) (hooksOf_traceOK fl u m) fl m u hwf hi hsel hd
+
+/-- **`start()` establishes the invariant**: unless the library refused to start the machine -/
+theorem start_runP (fl : Flavor) (m : Machine) (u : UEnv) (hwf : WF m.root) (hi : InitOK m.root)
+    (hk : m.root.kind ≠ .history) (hsel : SelSoundH m) (hd : MDot m) :
+    (start fl m u {}).err ≠ none ∨ RunP m (start fl m u {}) := by
+  obtain ⟨he, _⟩ := startEntries_eq m hwf hi
+  cases fl with
+  | sync =>
+    show (syncStart m u {}).err ≠ none ∨ RunP m (syncStart m u {})
+    have hP := runInv_of_hooks _ (hooksFlagged_ok u m) (hooksFlagged_traceOK u m) .sync m u hwf hi hsel hd
+    unfold syncStart
+    simp only [he]
+    generalize hs1 : (startEntries m).1.foldl (enterOne (hooksFlagged u m) .sync m none)
+      { ({} : St) with status := "running", ctx := m.ctx0 } = s1
+    cases h1 : s1.err with
+    | some e => left; simp [h1]
+    | none =>
+      simp only [h1, Option.isSome_none, Bool.false_eq_true, if_false]
+      have hl : RunP m s1 := by
+        refine ⟨?_, ?_⟩
+        · rw [← hs1]
+          exact initialEntry_legal _ (hooksFlagged_ok u m) .sync m _ hwf hi hk _ rfl (by rw [hs1]; exact h1)
+        · rw [← hs1, enterFold_hist _ (hooksFlagged_traceOK u m)]; exact histAll_nil m
+      have ht := (transientLoop_equiv' (hooksFlagged_ok u m) (hooksFlagged_perm u m) hP m.maxIterations
+        (St.equiv.refl m s1) hl).2
+      split
+      · rename_i herr
+        left
+        cases hh : (transientLoop (hooksFlagged u m) Flavor.sync m u m.maxIterations s1).err with
+        | none => simp [hh] at herr
+        | some _ => simp [hh]
+      · right; exact (drainLoop_equiv hP _ (St.equiv.refl m _) ht).2
+  | async =>
+    show (asyncStart m u {}).err ≠ none ∨ RunP m (asyncStart m u {})
+    have hP0 := runInv_of_hooks _ (hooksAsyncStart_ok u m) (hooksAsyncStart_traceOK u m) .async m u hwf hi hsel hd
+    have hP := runInv_of_hooks _ (hooksAsync_ok u m) (hooksAsync_traceOK u m) .async m u hwf hi hsel hd
+    unfold asyncStart
+    simp only [he]
+    generalize hs1 : (startEntries m).1.foldl
+      (enterOne (hooksAsyncStart u m) .async m (some "___xstate_statemachine_init___"))
+      { ({} : St) with status := "running", ctx := m.ctx0 } = s1
+    cases h1 : s1.err with
+    | some e => left; simp [h1]
+    | none =>
+      simp only [h1, Option.isSome_none, Bool.false_eq_true, if_false]
+      have hl : RunP m s1 := by
+        refine ⟨?_, ?_⟩
+        · rw [← hs1]
+          exact initialEntry_legal _ (hooksAsyncStart_ok u m) .async m _ hwf hi hk _ rfl (by rw [hs1]; exact h1)
+        · rw [← hs1, enterFold_hist _ (hooksAsyncStart_traceOK u m)]; exact histAll_nil m
+      have ht := (transientLoop_equiv' (hooksAsyncStart_ok u m) (hooksAsyncStart_perm u m) hP0 m.maxIterations
+        (St.equiv.refl m s1) hl).2
+      split
+      · rename_i herr
+        left
+        cases hh : (transientLoop (hooksAsyncStart u m) Flavor.async m u m.maxIterations s1).err with
+        | none => simp [hh] at herr
+        | some _ => simp [hh]
+      · right; exact (asyncDrain_equiv hP _ (St.equiv.refl m _) ht).2
+
+/-- **every state a run reaches satisfies the invariant** (C01 + C11 for whole runs, history targets
+    included): `start()` did not refuse the machine, then any commands -/
+theorem runP_run (fl : Flavor) (m : Machine) (u : UEnv) (hwf : WF m.root) (hi : InitOK m.root)
+    (hk : m.root.kind ≠ .history) (hsel : SelSoundH m) (hd : MDot m) (hstart : (start fl m u {}).err = none)
+    (evs : List Ev) : RunP m (evs.foldl (cmdO fl m u) (start fl m u {})) := by
+  have h0 : RunP m (start fl m u {}) := by
+    rcases start_runP fl m u hwf hi hk hsel hd with h | h
+    · exact absurd hstart h
+    · exact h
+  exact (run_equiv fl (runInv_legal fl m u hwf hi hsel hd) evs (SnapEquiv.of_equiv (St.equiv.refl m _)) h0).2
+
+-- ---------------------------------------------------------------------------------------------
+-- the history component through whole commands: any property of the history that `recordHistory`
+-- preserves is an invariant of every run of either engine, from `start()` on, unconditionally
+-- ---------------------------------------------------------------------------------------------
+section histinv
+variable {m : Machine} {Q : List (Path × List Path) → Prop}
+
+/-- `Q` is kept by `_record_history` -/
+def RecClosed (m : Machine) (Q : List (Path × List Path) → Prop) : Prop :=
+  ∀ (ex : List Path) (s : St), Q s.hist → Q (recordHistory m ex s).hist
+
+theorem execute_histQ (hQ : RecClosed m Q) (h : Hooks) (htr : HooksTraceOK h) (fl : Flavor) (ev : Ev) (pl : Plan)
+    (s : St) (hs : Q s.hist) : Q (execute h fl m ev pl s).hist := by
+  rcases execute_hist_cases h htr fl m ev pl s with hh | ⟨_, hh⟩
+  · rw [hh]; exact hs
+  · rw [hh]; exact hQ _ s hs
+
+theorem processEvent_histQ (hQ : RecClosed m Q) (h : Hooks) (htr : HooksTraceOK h) (fl : Flavor) (u : UEnv) (ev : Ev)
+    (s : St) (hs : Q s.hist) : Q (processEvent h fl m u ev s).hist := by
+  unfold processEvent
+  split
+  · rw [fail_hist]; exact hs
+  · rename_i sel _
+    generalize (decide (sel.length > 1)) = b
+    have : ∀ (l : List Cand) (s : St), Q s.hist →
+        Q (l.foldl (fun s c => if s.err.isSome then s else if b && !(s.cfg.contains c.src) then s
+          else execute h fl m ev (planTransition m s.cfg s.hist c) s) s).hist := by
+      intro l
+      induction l with
+      | nil => intro s hs; exact hs
+      | cons c l ih =>
+        intro s hs
+        simp only [List.foldl_cons]
+        apply ih
+        split
+        · exact hs
+        · split
+          · exact hs
+          · exact execute_histQ hQ h htr fl ev _ s hs
+    exact this sel s hs
+
+theorem transientLoop_histQ (hQ : RecClosed m Q) (h : Hooks) (htr : HooksTraceOK h) (fl : Flavor) (u : UEnv) :
+    ∀ (fuel : Nat) (s : St), Q s.hist → Q (transientLoop h fl m u fuel s).hist := by
+  intro fuel
+  induction fuel with
+  | zero => intro s hs; exact hs
+  | succ f ih =>
+    intro s hs
+    unfold transientLoop
+    split
+    · exact hs
+    · split
+      · rw [fail_hist]; exact hs
+      · split
+        · exact ih _ (processEvent_histQ hQ h htr fl u _ s hs)
+        · exact hs
+
+theorem drainLoop_histQ (hQ : RecClosed m Q) (u : UEnv) :
+    ∀ (budget : Nat) (s : St), Q s.hist → Q (drainLoop m u budget s).hist := by
+  intro budget
+  induction budget with
+  | zero => intro s hs; simp only [drainLoop]; split <;> exact hs
+  | succ b ih =>
+    intro s hs
+    cases hq : s.queue with
+    | nil => simp only [drainLoop, hq]; exact hs
+    | cons q rest =>
+      obtain ⟨e, sf⟩ := q
+      simp only [drainLoop, hq]
+      split
+      · exact hs
+      · have h1 : Q (emit ("#recv:" ++ e.type) { s with queue := rest }).hist := hs
+        have h2 := processEvent_histQ hQ (hooksFlagged u m) (hooksFlagged_traceOK u m) .sync u e _ h1
+        have h3 := transientLoop_histQ hQ (hooksFlagged u m) (hooksFlagged_traceOK u m) .sync u m.maxIterations _ h2
+        split
+        · exact h3
+        · exact ih _ h3
+
+theorem syncSend_histQ (hQ : RecClosed m Q) (u : UEnv) (e : Ev) (s : St) (hs : Q s.hist) :
+    Q (syncSend m u e s).hist := by
+  unfold syncSend sndUnflagged drainFlagged
+  split
+  · exact drainLoop_histQ hQ u _ _ hs
+  · exact hs
+
+theorem asyncStep_histQ (hQ : RecClosed m Q) (u : UEnv) (e : Ev) (s : St) (hs : Q s.hist) :
+    Q (asyncStep m u e s).hist := by
+  unfold asyncStep
+  split
+  · exact hs
+  · have h1 : Q (emit ("#recv:" ++ e.type) s).hist := hs
+    have h2 := processEvent_histQ hQ (hooksAsync u m) (hooksAsync_traceOK u m) .async u e _ h1
+    have h3 := transientLoop_histQ hQ (hooksAsync u m) (hooksAsync_traceOK u m) .async u m.maxIterations _ h2
+    simp only
+    split
+    · exact h3
+    · split
+      · exact h3
+      · exact h3
+
+theorem asyncDrain_histQ (hQ : RecClosed m Q) (u : UEnv) :
+    ∀ (fuel : Nat) (s : St), Q s.hist → Q (asyncDrain m u fuel s).hist := by
+  intro fuel
+  induction fuel with
+  | zero => intro s hs; simp only [asyncDrain]; split <;> exact hs
+  | succ f ih =>
+    intro s hs
+    unfold asyncDrain
+    split
+    · exact hs
+    · split
+      · exact hs
+      · exact ih _ (asyncStep_histQ hQ u _ _ hs)
+
+theorem asyncSend_histQ (hQ : RecClosed m Q) (u : UEnv) (e : Ev) (s : St) (hs : Q s.hist) :
+    Q (asyncSend m u e s).hist := by
+  unfold asyncSend
+  split
+  · exact asyncDrain_histQ hQ u _ _ hs
+  · exact hs
+
+theorem cmdO_histQ (hQ : RecClosed m Q) (fl : Flavor) (u : UEnv) (s : St) (e : Ev) (hs : Q s.hist) :
+    Q (cmdO fl m u s e).hist := by
+  unfold cmdO send
+  cases fl with
+  | sync => exact syncSend_histQ hQ u e _ hs
+  | async => exact asyncSend_histQ hQ u e _ hs
+
+theorem syncTail_histQ (hQ : RecClosed m Q) (u : UEnv) (x : St) (hx : Q x.hist) :
+    Q (if x.err.isSome then x else
+        if (transientLoop (hooksFlagged u m) .sync m u m.maxIterations x).err.isSome
+        then transientLoop (hooksFlagged u m) .sync m u m.maxIterations x
+        else drainFlagged m u (transientLoop (hooksFlagged u m) .sync m u m.maxIterations x)).hist := by
+  have h3 := transientLoop_histQ hQ (hooksFlagged u m) (hooksFlagged_traceOK u m) .sync u m.maxIterations x hx
+  split
+  · exact hx
+  · split
+    · exact h3
+    · exact drainLoop_histQ hQ u _ _ h3
+
+theorem asyncTail_histQ (hQ : RecClosed m Q) (u : UEnv) (x : St) (hx : Q x.hist) :
+    Q (if x.err.isSome then { x with status := "stopped" } else
+        if (transientLoop (hooksAsyncStart u m) .async m u m.maxIterations x).err.isSome
+        then { transientLoop (hooksAsyncStart u m) .async m u m.maxIterations x with status := "stopped" }
+        else asyncDrain m u (asyncFuel m) (transientLoop (hooksAsyncStart u m) .async m u m.maxIterations x)).hist := by
+  have h3 := transientLoop_histQ hQ (hooksAsyncStart u m) (hooksAsyncStart_traceOK u m) .async u m.maxIterations x hx
+  split
+  · exact hx
+  · split
+    · exact h3
+    · exact asyncDrain_histQ hQ u _ _ h3
+
+theorem start_histQ (hQ : RecClosed m Q) (fl : Flavor) (u : UEnv) (s : St) (hs : Q s.hist) :
+    Q (start fl m u s).hist := by
+  cases fl with
+  | sync =>
+    show Q (syncStart m u s).hist
+    have h1 : Q ((startEntries m).1.foldl (enterOne (hooksFlagged u m) .sync m none)
+        { s with status := "running", ctx := m.ctx0 }).hist := by
+      rw [enterFold_hist _ (hooksFlagged_traceOK u m)]; exact hs
+    unfold syncStart
+    simp only
+    cases (startEntries m).2 with
+    | none => exact syncTail_histQ hQ u _ h1
+    | some e => exact syncTail_histQ hQ u _ (by rw [fail_hist]; exact h1)
+  | async =>
+    show Q (asyncStart m u s).hist
+    have h1 : Q ((startEntries m).1.foldl (enterOne (hooksAsyncStart u m) .async m (some "___xstate_statemachine_init___"))
+        { s with status := "running", ctx := m.ctx0 }).hist := by
+      rw [enterFold_hist _ (hooksAsyncStart_traceOK u m)]; exact hs
+    unfold asyncStart
+    simp only
+    cases (startEntries m).2 with
+    | none => exact asyncTail_histQ hQ u _ h1
+    | some e => exact asyncTail_histQ hQ u _ (by rw [fail_hist]; exact h1)
+
+/-- **every state a run reaches**: `start()` from the fresh interpreter, then any commands -/
+theorem run_histQ (hQ : RecClosed m Q) (hnil : Q []) (fl : Flavor) (u : UEnv) (evs : List Ev) :
+    Q (evs.foldl (cmdO fl m u) (start fl m u {})).hist := by
+  have h0 : Q (start fl m u {}).hist := start_histQ hQ fl u {} hnil
+  generalize start fl m u {} = s0 at h0
+  induction evs generalizing s0 with
+  | nil => exact h0
+  | cons e evs ih => simp only [List.foldl_cons]; exact ih _ (cmdO_histQ hQ fl u s0 e h0)
+end histinv
+
+/-- every remembered list is in the (depth, id) order `_record_history` produces -/
+def DISorted (m : Machine) (h : List (Path × List Path)) : Prop :=
+  ∀ kv ∈ h, kv.2.Pairwise (fun a b => depthIdLe m a b = true)
+
+theorem recStep_diSorted (m : Machine) (cfg : List Path) (hist : List (Path × List Path)) (st : Path)
+    (h : DISorted m hist) : DISorted m (recStep m cfg hist st) := by
+  unfold recStep
+  split
+  · exact h
+  · split
+    · split
+      · exact h
+      · intro kv hkv
+        rcases List.mem_append.1 hkv with h1 | h1
+        · exact h kv (List.mem_filter.1 h1).1
+        · simp only [List.mem_singleton] at h1
+          rw [h1]; exact recRem_sorted m cfg st
+    · exact h
+
+/-- `_record_history` only ever stores lists in (depth, id) order -/
+theorem diSorted_recClosed (m : Machine) : RecClosed m (DISorted m) := by
+  intro ex s hs
+  rw [recordHistory_hist]
+  generalize (ex.flatMap chainUp).eraseDups = cands
+  generalize s.hist = hist at hs
+  induction cands generalizing hist with
+  | nil => exact hs
+  | cons c cs ih => simp only [List.foldl_cons]; exact ih _ (recStep_diSorted m s.cfg hist c hs)
+
+/-- hence in every state a run reaches every remembered list is in (depth, id) order -/
+theorem diSorted_run (m : Machine) (fl : Flavor) (u : UEnv) (evs : List Ev) :
+    DISorted m (evs.foldl (cmdO fl m u) (start fl m u {})).hist :=
+  run_histQ (diSorted_recClosed m) (fun _ h => by cases h) fl u evs
+
 
 end Snap
 end XSM
